@@ -5,7 +5,7 @@ import sys,os,re,json,subprocess,shutil
 pid=sys.argv[1]; variants=sys.argv[2:] or ['a','b']
 BASE=os.environ.get('MUT_BASE','/tmp/mut')
 # wave 2 variants are stored as c,d so ids stay unique
-REN={'a':'c','b':'d'} if BASE.endswith('mut2') else {}
+REN={'a':'c','b':'d'} if BASE.endswith('mut2') else ({'a':'e','b':'f'} if BASE.endswith('mut3') else {})
 for v in variants:
     src=f'{BASE}/{pid}/out/{v}'
     if not os.path.exists(src+'/patch.diff'):
